@@ -114,7 +114,8 @@ size_t ParseScalableInteger(const void *buff_ptr, size_t buff_size, uint64_t &ou
     bool is_completed = false;
 
     //! 从前到后读取替代数值
-    for (size_t i = 0; i < buff_size && i <= 10; ++i) {
+    //! 64位整数最多占用10字节，超过10字节还未结束的视为非法数据
+    for (size_t i = 0; i < buff_size && i < 10; ++i) {
         uint8_t value = byte_ptr[i];
 
         read_value <<= 7;
